@@ -349,12 +349,12 @@ func (m *maskInterp) run(st *interpState, b, pred *ssa.BasicBlock) {
 						m.fail("population count of a non-word")
 						return
 					}
-					st.env[x] = &symVal{kind: skSum, sum: []sumTerm{{a.w, "math/bits." + sc.Name()}}}
+					st.env[x] = &symVal{kind: skSum, sum: []sumTerm{{a.w, "math/bits." + cname(sc)}}}
 					continue
 				}
 				name := "?"
 				if sc != nil {
-					name = sc.Name()
+					name = cname(sc)
 				}
 				m.fail("call of %s inside a mask operation", name)
 				return
